@@ -22,6 +22,10 @@ class MachineryError(Exception):
     pass
 
 
+REPLAY_KEY = None   # set by check.py --replay: Report.finish then reports only this case and leaves evidence untouched
+REPLAY_PATH = None
+
+
 def seed_from_env(default=0) -> int:
     try:
         return int(os.environ.get("VERIF_SEED", default))
@@ -145,6 +149,14 @@ class Report:
     def finish(self, known: "KnownFindings") -> int:
         wall = time.time() - self.t0
         new = []
+        if REPLAY_KEY is not None:
+            # --replay: the whole check was re-run with the seed/tier of the replay file; report only that case
+            hit = [v for v in self.violations if v["key"] == REPLAY_KEY]
+            for v in hit[:1]:
+                print(f"VIOLATION property={self.pid} replay={REPLAY_PATH}")
+                print(f"  -> {v['key']}: {v['what']}"[:600])
+            print(f"[{self.pid}] replay of {REPLAY_KEY}: {'still violated' if hit else 'holds now'} (wall={wall:.1f}s)")
+            return 1 if hit else 0
         for v in self.violations:
             kf = known.match(self.pid, v["key"])
             if kf is not None:
@@ -160,7 +172,7 @@ class Report:
             h = hashlib.sha1(json.dumps(v["replay"], sort_keys=True, default=str).encode()).hexdigest()[:12]
             path = os.path.join(rdir, h + ".json")
             with open(path, "w") as f:
-                json.dump({"property": self.pid, "key": v["key"], "what": v["what"], **v["replay"]}, f, indent=1, default=str)
+                json.dump({"property": self.pid, "key": v["key"], "what": v["what"], "seed": self.seed, "tier": self.tier, **v["replay"]}, f, indent=1, default=str)
             print(f"VIOLATION property={self.pid} replay={path}")
             print(f"  -> {v['key']}: {v['what']}"[:600])
         cov = {
